@@ -11,6 +11,7 @@ import (
 	"encoding/json"
 	"fmt"
 	"math"
+	"strings"
 	"time"
 
 	"github.com/lyraproj/data-protobuf/datapb"
@@ -37,10 +38,12 @@ var otherKinds = map[string]func() px.Value{
 	"regexp-long": func() px.Value { return types.WrapRegexp(`^[a-z]+(foo|bar|baz){2,3}$`) },
 	"type":        func() px.Value { return types.DefaultIntegerType() },
 	"type-long":   func() px.Value { return types.NewArrayType(types.NewIntegerType(1, 5), types.NewIntegerType(2, 300)) },
-	"runtime":     func() px.Value { return types.WrapRuntime(struct {
-		A int
-		B string
-	}{7, "a runtime struct value"}) },
+	"runtime": func() px.Value {
+		return types.WrapRuntime(struct {
+			A int
+			B string
+		}{7, "a runtime struct value"})
+	},
 	"runtime-short": func() px.Value { return types.WrapRuntime(42) },
 	"timespan":      func() px.Value { return types.WrapTimespan(90 * time.Minute) },
 	"timestamp":     func() px.Value { return types.WrapTimestamp(time.Unix(1500000000, 0).UTC()) },
@@ -52,16 +55,16 @@ func isRuntimeKind(k string) bool { return k == "runtime" || k == "runtime-short
 
 type svGen struct{ n int }
 
-func (g *svGen) id() int                { g.n++; return g.n }
-func (g *svGen) sc(e *Ev) *SV           { return &SV{T: "sc", E: e} }
-func (g *svGen) str(s string) *SV       { return &SV{T: "str", E: evStr(s)} }
-func (g *svGen) arr(l ...*SV) *SV       { return &SV{T: "arr", Id: g.id(), L: l} }
-func (g *svGen) hash(l ...*SV) *SV      { return &SV{T: "hash", Id: g.id(), L: l} }
-func (g *svGen) sens(x *SV) *SV         { return &SV{T: "sens", Id: g.id(), L: []*SV{x}} }
-func (g *svGen) bin(b []byte) *SV       { return &SV{T: "bin", Id: g.id(), E: evBin(b)} }
-func (g *svGen) other(k string) *SV     { return &SV{T: "other", K: k} }
-func (g *svGen) dflt() *SV              { return &SV{T: "default"} }
-func (g *svGen) i(v int64) *SV          { return g.sc(evInt(v)) }
+func (g *svGen) id() int            { g.n++; return g.n }
+func (g *svGen) sc(e *Ev) *SV       { return &SV{T: "sc", E: e} }
+func (g *svGen) str(s string) *SV   { return &SV{T: "str", E: evStr(s)} }
+func (g *svGen) arr(l ...*SV) *SV   { return &SV{T: "arr", Id: g.id(), L: l} }
+func (g *svGen) hash(l ...*SV) *SV  { return &SV{T: "hash", Id: g.id(), L: l} }
+func (g *svGen) sens(x *SV) *SV     { return &SV{T: "sens", Id: g.id(), L: []*SV{x}} }
+func (g *svGen) bin(b []byte) *SV   { return &SV{T: "bin", Id: g.id(), E: evBin(b)} }
+func (g *svGen) other(k string) *SV { return &SV{T: "other", K: k} }
+func (g *svGen) dflt() *SV          { return &SV{T: "default"} }
+func (g *svGen) i(v int64) *SV      { return g.sc(evInt(v)) }
 
 func (v *SV) walk(f func(*SV)) {
 	f(v)
@@ -235,7 +238,7 @@ func gCfg(o serOpts, ckeys, cbin bool, thr int) string {
 
 type discardLogger struct{}
 
-func (discardLogger) Log(level px.LogLevel, args ...px.Value)                  {}
+func (discardLogger) Log(level px.LogLevel, args ...px.Value)                    {}
 func (discardLogger) Logf(level px.LogLevel, format string, args ...interface{}) {}
 func (discardLogger) LogIssue(i issue.Reported)                                  {}
 
@@ -433,7 +436,11 @@ func randSV(r *lib.Rng, g *svGen, pool []func() *SV, made *[]*SV, depth int) *SV
 	var v *SV
 	switch {
 	case depth <= 0 || r.Chance(2, 5):
-		v = pool[r.Intn(len(pool))]()
+		if r.Chance(1, 8) {
+			v = g.str(escString(r)) // content that looks like JSON text
+		} else {
+			v = pool[r.Intn(len(pool))]()
+		}
 	case r.Chance(1, 2):
 		n := r.Intn(4)
 		l := make([]*SV, n)
@@ -449,7 +456,7 @@ func randSV(r *lib.Rng, g *svGen, pool []func() *SV, made *[]*SV, depth int) *SV
 		for i := 0; i < n; i++ {
 			var k *SV
 			if r.Chance(1, 2) {
-				k = g.str([]string{"a", "b", sLong21, sMinInt, "key" + fmt.Sprint(i)}[r.Intn(5)])
+				k = g.str([]string{"a", "b", sLong21, sMinInt, "key" + fmt.Sprint(i), escString(r)}[r.Intn(6)])
 			} else {
 				k = randSV(r, g, pool, made, depth-1)
 			}
@@ -509,6 +516,27 @@ func (c *checker) serFamily(ctx px.Context, rng *lib.Rng, nRandom, coqCases int,
 						c.serValue(ctx, v, serOptSets[(nv+oi)%nOpts], fams[t], k%stride == 0)
 					}
 				}
+			}
+		}
+	}
+	// strings whose content looks like JSON text (strlex.go) at every position of every template: as key and as value,
+	// next to a long string, an Integer key (the stringified-key route) and themselves, below and above the dedup threshold
+	escs := poolEscStrings()
+	nEsc := 0
+	for ie, es := range escs {
+		if !allOpts && ie%3 != 0 && !strings.Contains(es, "u0026") {
+			continue // quick tier: a third of the pool, and everything that mentions u0026
+		}
+		for t := 0; t < nSerTemplates; t++ {
+			for ip := 0; ip < 3; ip++ {
+				mk := func() *SV { return g.str(es) }
+				partner := []func() *SV{func() *SV { return g.str(sLong21) }, func() *SV { return g.i(7) }, mk}[ip]
+				a, b := mk(), partner()
+				if (ie+t)%2 == 1 {
+					a, b = b, a
+				}
+				nEsc++
+				c.serValue(ctx, serTemplate(g, t, a, b, a, b), serOptSets[(nEsc+t)%nOpts], "escape-like-strings", nEsc%40 == 0)
 			}
 		}
 	}
